@@ -62,13 +62,17 @@ def one_round(ctx, r, st, ids, epic, big=False, force=None):
         body = "b" + body
     want_t, want_b, tid = title, body, None
     if mode == "new-json":
-        rr = ex(["--json", "new", "task"], json.dumps({"title": title, "body": body}, ensure_ascii=r.p(50)).encode())
+        # sometimes with the fields that make `new` record follow-up events (state, claim) right after the creation event
+        extra = r.pick([{}, {}, {"state": "blocked"}, {"claim": "ag"}, {"state": "doing", "claim": "ag"}, {"state": "done"}])
+        rr = ex(["--json", "new", "task"], json.dumps(dict({"title": title, "body": body}, **extra), ensure_ascii=r.p(50)).encode())
     elif mode == "epic-json":
         rr = ex(["--json", "new", "epic"], json.dumps({"title": title, "body": body}, ensure_ascii=r.p(50)).encode())
     elif mode == "new-flags":
-        rr = ex(["--json", "new", "task", "--title", title, "--body", body]); want_t = go_trim(title)
+        extra = r.pick([[], [], ["--state", "blocked"], ["--claim", "ag"]])
+        rr = ex(["--json", "new", "task", "--title", title, "--body", body] + extra); want_t = go_trim(title)
     elif mode == "new-bodystdin":
-        rr = ex(["--json", "new", "task", "--title", title, "--body-stdin"], body.encode()); want_t = go_trim(title)
+        extra = r.pick([[], [], ["--state", "blocked"], ["--claim", "ag"]])
+        rr = ex(["--json", "new", "task", "--title", title, "--body-stdin"] + extra, body.encode()); want_t = go_trim(title)
     elif mode == "epic-bodystdin":
         rr = ex(["--json", "new", "epic", "--title", title, "--body-stdin"], body.encode()); want_t = go_trim(title)
     elif mode == "set-json":
@@ -127,7 +131,7 @@ def run(ctx):
     try:
         ids = [json.loads(st.exec(["--json", "new", "task"], b'{"title":"seed"}')["stdout"])["id"]]
         # every edge character first and last in the body (and inside the title), through every input channel
-        for mode in ("new-json", "new-flags", "new-bodystdin", "set-json", "set-flags", "set-bodystdin", "epic-json", "epic-bodystdin", "plan"):
+        for mode in ("new-json", "new-json", "new-flags", "new-bodystdin", "set-json", "set-flags", "set-bodystdin", "epic-json", "epic-bodystdin", "plan"):
             for e in EDGE:
                 if not one_round(ctx, r, st, ids, None, force=(mode, "t" + e + "x", e + "mid" + e)):
                     return
